@@ -83,6 +83,21 @@ def build_payload(case_rng, par):
         val = bytes([par["bulk"]["byte"]]) * n if par["bulk"]["byte"] is not None else rng.randbytes(n)
         settings = list(settings) + [(par["bulk"].get("index", 1234), 3, val)]
     cfg = tlv.encode(settings)
+    if par.get("xorsniff"):
+        # a 256-byte key chosen through the masked bytes it produces at the start of the area: ff ff ff (an end-of-stub
+        # marker) and, in the view a XorEncoded reader would decode from there, a small e_lfanew, a Machine word and its
+        # SizeOfOptionalHeader - the raw payload passes the XorEncoded sniffing although it is not XorEncoded
+        head = bytearray(0x61 + b % 26 for b in rng.randbytes(256))
+        head[0:3] = b"\xff\xff\xff"
+
+        def set_decoded(j, value, w=3):
+            for i_, v_ in enumerate(value):
+                head[w + 8 + j + i_] = head[w + 4 + j + i_] ^ v_
+
+        set_decoded(0x3C, struct.pack("<I", 0x40))
+        set_decoded(0x44, struct.pack("<H", 0x8664 if par["arch"] == "x64" else 0x14C))
+        set_decoded(0x44 + 16, struct.pack("<H", 0xF0 if par["arch"] == "x64" else 0xE0))
+        par["envkey"] = bytes(h ^ c_ ^ 0x2E for h, c_ in zip(head, cfg.ljust(6144, b"\0")[:256]))
     opts = [(o, OPTS[o][1], par["optvals"][str(o)]) for o in par["opts"]]
     kw = {}
     if par["neg"] == "checksum":
@@ -225,6 +240,14 @@ def check_case(case, ctx):
             return
     else:
         ctx.mon("negative.no_config")
+        hdr = b"\x00\x01\x00\x01\x00\x02\x00"
+        region = payload[max(base - 6, 0) : base + 8192 + 6] if not par["xorenc"] else b""
+        if c is not None and c.guardrails is None and any(P.rx1(hdr, k1) in region for k1 in (0x69, 0x2E, 0x00)):
+            # key and configuration bytes together happen to form a configuration-header look-alike under a default
+            # single-byte key (e.g. key 00 01 over '.. 00 00 00 00 00 03 00'): with the Guardrails layer unusable the
+            # ordinary extraction (C01) rightly returns that block - nothing of C17 to judge
+            ctx.ok(fp=payload, nontrivial=False, case={"par": dict(par)}, classes=("neg:accidental-lookalike",))
+            return
         if c is not None and neg != "rndpad":
             ctx.violation("negative.no_config", f"negative case '{neg}' produced a configuration (key {core.short(c.guardrails.payload_xor_key if c.guardrails else None, 40)})", case)
             return
@@ -321,7 +344,7 @@ def gen_key(rng, length):
     return k, kind
 
 
-def gen_par(rng, keylen, neg=None):
+def gen_par(rng, keylen, neg=None, xorsniff=None):
     first = rng.choice([5, 6, 7, 8])
     rest = [o for o in (5, 6, 7, 8) if o != first and rng.random() < 0.4]
     opts = [first] + sorted(rest)
@@ -342,6 +365,8 @@ def gen_par(rng, keylen, neg=None):
         "arch": rng.choice(["x86", "x64"]), "xorenc": rng.random() < 0.2, "stub": rng.choice([0, 57, 300]),
         "decoy": rng.choice([None, None, None, "marker", "copy"]) if neg is None else None,
     }
+    if neg is None and keylen == 256 and (xorsniff if xorsniff is not None else rng.random() < 0.5):
+        par.update(xorsniff=True, keykind="xorsniff", container="raw", xorenc=False, pre=rng.choice([0, 0, 5, 100]), decoy=None)
     if neg is None and rng.random() < 0.12:
         par["guardlook"] = (rng.randrange(200, 2040), rng.choice([0x69, 0x2E, 0x00]))
         par["decoy"] = None
@@ -394,6 +419,9 @@ def run_shard(shard, ctx):
     rng = ctx.rng
     if shard["kind"] == "positive":
         lens = list(range(2, 257))[shard["part"] :: shard["parts"]]
+        if shard["part"] in (0, 1):
+            for _ in range(2):
+                check_case({"par": gen_par(rng, 256, xorsniff=True)}, ctx)
         i = 0
         while i < shard["n"] and not ctx.out_of_time():
             keylen = lens[i % len(lens)] if i < len(lens) else rng.randrange(2, 257)
